@@ -88,10 +88,80 @@ static void fill_eval(uint64_t idx, void *ctx) {
     BEE_CHECK(ga.live_blocks == 0, "parent-balance", "parent balance %llu after destroy", (unsigned long long)ga.live_blocks);
 }
 
+/* ---- section many: aws_mem_acquire_many on the small-block allocator ----
+ * One block laid out as several objects (allocator.c): every object is writable for its whole requested size, the objects are
+ * pairwise disjoint and disjoint from neighbouring blocks of the same size class (SBA chunks are exact powers of two packed
+ * back to back, so a layout that needs one byte more than was requested lands in the next chunk).  All size pairs
+ * (s1, s2) in 1..72 x 1..72 and all triples over {1, 7, 8, 9, 17, 30, 33}; two neighbours of the class are acquired before and
+ * after, everything is filled with its own byte and read back (added after a seeded change in the sizing loop of
+ * aws_mem_acquire_many: total rounded once, objects placed with per-object rounding). */
+#define MANY_PAIR 72
+static const size_t MANY_T[7] = {1, 7, 8, 9, 17, 30, 33};
+static uint64_t many_total(void) { return (uint64_t)MANY_PAIR * MANY_PAIR + 7 * 7 * 7; }
+static void many_eval(uint64_t idx, void *ctx) {
+    (void)ctx;
+    BEE_ITEM(idx);
+    size_t sz[3];
+    int cnt;
+    if (idx < (uint64_t)MANY_PAIR * MANY_PAIR) {
+        cnt = 2;
+        sz[0] = (size_t)(idx / MANY_PAIR) + 1;
+        sz[1] = (size_t)(idx % MANY_PAIR) + 1;
+        sz[2] = 0;
+    } else {
+        uint64_t x = idx - (uint64_t)MANY_PAIR * MANY_PAIR;
+        cnt = 3;
+        for (int i = 0; i < 3; ++i) sz[i] = MANY_T[bee_digit(&x, 7)];
+    }
+    galloc_reset();
+    struct aws_allocator *parent = galloc_get(0, 0);
+    struct aws_allocator *sba = aws_small_block_allocator_new(parent, false);
+    size_t sum = sz[0] + sz[1] + sz[2];
+    V_COUNT("evaluations", 1);
+    V_COUNT("nontrivial", 1);
+    /* neighbours: same request size as the sum (the class the combined block most plausibly lands in) and one class up */
+    uint8_t *nb[4];
+    size_t nbsz[4] = {sum, sum, sum + 8, sum + 8};
+    nb[0] = (uint8_t *)aws_mem_acquire(sba, nbsz[0]);
+    nb[2] = (uint8_t *)aws_mem_acquire(sba, nbsz[2]);
+    void *obj[3] = {NULL, NULL, NULL};
+    void *blockp = cnt == 2 ? aws_mem_acquire_many(sba, 2, &obj[0], sz[0], &obj[1], sz[1]) : aws_mem_acquire_many(sba, 3, &obj[0], sz[0], &obj[1], sz[1], &obj[2], sz[2]);
+    nb[1] = (uint8_t *)aws_mem_acquire(sba, nbsz[1]);
+    nb[3] = (uint8_t *)aws_mem_acquire(sba, nbsz[3]);
+    BEE_CHECK(blockp != NULL && obj[0] == blockp, "many-layout", "acquire_many(%zu,%zu,%zu): block %p, first object %p", sz[0], sz[1], sz[2], blockp, obj[0]);
+    for (int i = 0; i < 4; ++i) memset(nb[i], 0x51 + i, nbsz[i]);
+    for (int i = 0; i < cnt; ++i) memset(obj[i], 0xA1 + i, sz[i]);
+    for (int i = 0; i < cnt && !v_sh->viol_count; ++i) {
+        const uint8_t *o = (const uint8_t *)obj[i];
+        for (size_t k = 0; k < sz[i]; ++k)
+            if (o[k] != 0xA1 + i) {
+                bee_fail("many-objects-overlap", "acquire_many(%zu,%zu,%zu): byte %zu of object %d reads 0x%02x after every object was filled with its own byte", sz[0], sz[1], sz[2], k, i, o[k]);
+                break;
+            }
+        for (int j = i + 1; j < cnt; ++j) {
+            const uint8_t *p = (const uint8_t *)obj[j];
+            BEE_CHECK(o + sz[i] <= p || p + sz[j] <= o, "many-objects-overlap", "acquire_many(%zu,%zu,%zu): objects %d and %d overlap", sz[0], sz[1], sz[2], i, j);
+        }
+    }
+    for (int i = 0; i < 4 && !v_sh->viol_count; ++i)
+        for (size_t k = 0; k < nbsz[i]; ++k)
+            if (nb[i][k] != 0x51 + i) {
+                bee_fail("many-damages-neighbour", "acquire_many(%zu,%zu,%zu) on the small-block allocator: byte %zu of a neighbouring live block of %zu bytes reads 0x%02x, written 0x%02x", sz[0], sz[1],
+                         sz[2], k, nbsz[i], nb[i][k], 0x51 + i);
+                break;
+            }
+    aws_mem_release(sba, blockp);
+    for (int i = 0; i < 4; ++i) aws_mem_release(sba, nb[i]);
+    BEE_CHECK(aws_small_block_allocator_bytes_active(sba) == 0, "bytes-active", "after releasing everything bytes_active=%zu", aws_small_block_allocator_bytes_active(sba));
+    aws_small_block_allocator_destroy(sba);
+    BEE_CHECK(ga.live_blocks == 0, "parent-balance", "parent balance %llu after destroy", (unsigned long long)ga.live_blocks);
+}
+
 int main(int argc, char **argv) {
     v_init(argc, argv);
     aws_common_library_init(aws_default_allocator());
     bee_register("sbafill", fill_total, fill_eval, 30);
+    bee_register("many", many_total, many_eval, 20);
     v_sample("sbafill index = (n blocks, size class, release order, single/multi-threaded); e.g. class 32 with n = 127, 254 hits the exact page multiples of the shipped page size");
     return bee_main(argc, argv);
 }
